@@ -269,6 +269,78 @@ func extractStartup(t *T) (string, error) {
 	} else {
 		return "", err
 	}
+	// every `for _, chunk := range xslices.Chunk(X, n)` loop of the SQLite layer works on ITS chunk: inside the loop body
+	// the ranged-over slice X is not mentioned at all (except as len(X), a capacity hint) — so no statement can bind the
+	// whole list to the placeholders of one chunk — and the loop variable is used
+	loops, bad := 0, []string{}
+	for _, rel := range []string{"internal/db_impl/sqlite3/write_ops.go", "internal/db_impl/sqlite3/read_ops.go"} {
+		xf, err := t.ParseFile(rel)
+		if err != nil {
+			return "", err
+		}
+		for _, d := range xf.Decls {
+			fd, ok := d.(*ast.FuncDecl)
+			if !ok || fd.Body == nil {
+				continue
+			}
+			ast.Inspect(fd.Body, func(n ast.Node) bool {
+				rs, ok := n.(*ast.RangeStmt)
+				if !ok {
+					return true
+				}
+				call, ok := rs.X.(*ast.CallExpr)
+				if !ok || len(call.Args) != 2 {
+					return true
+				}
+				sel, ok := call.Fun.(*ast.SelectorExpr)
+				if !ok || sel.Sel.Name != "Chunk" {
+					return true
+				}
+				whole, ok1 := call.Args[0].(*ast.Ident)
+				loopVar, ok2 := rs.Value.(*ast.Ident)
+				if !ok1 || !ok2 {
+					return true
+				}
+				loops++
+				usesChunk, usesWhole := false, false
+				var walk func(n ast.Node, inLen bool)
+				walk = func(n ast.Node, inLen bool) {
+					ast.Inspect(n, func(m ast.Node) bool {
+						switch x := m.(type) {
+						case *ast.CallExpr:
+							if isIdentNamed(x.Fun, "len") && !inLen {
+								for _, a := range x.Args {
+									walk(a, true)
+								}
+								return false
+							}
+						case *ast.Ident:
+							if x.Name == loopVar.Name {
+								usesChunk = true
+							}
+							if x.Name == whole.Name && !inLen {
+								usesWhole = true
+							}
+						}
+						return true
+					})
+				}
+				walk(rs.Body, false)
+				if !usesChunk || usesWhole {
+					bad = append(bad, fd.Name.Name)
+				}
+				return true
+			})
+		}
+	}
+	v := ""
+	if loops > 0 {
+		v = "true"
+		if len(bad) > 0 {
+			v = "false"
+		}
+	}
+	def("chunk_loops_bind_their_chunk", v, fmt.Sprintf("%d chunk loops in write_ops.go / read_ops.go; loops that mention the whole slice or ignore the chunk: %v", loops, bad))
 	return sb.String(), nil
 }
 
